@@ -24,6 +24,8 @@ func init() {
 }
 
 func runC15(c *core.Ctx) {
+	c.Rule("RETRFLAG", "a node that retracts rows of its own declares NoRetractions false")
+	checkRetractionFlags(c, "RETRFLAG")
 	ids := typeIDs(c.Prog)
 	c.Rule("PASS", "pass-through of retraction flag and event time")
 	c.Rule("ABS5", "multiplicity bookkeeping")
